@@ -1,7 +1,10 @@
 (* C04 -- an accepted header never depends on or consumes the bytes that follow it.
    Statements only; proofs in Proofs/V1Final.v (v1), Proofs/AutoProps.v (v2, auto). *)
 From PPP Require Import Base.Bytes Std.Utf8 Std.Text Model.V1 Model.V2 Model.Auto
-  Proofs.BytesFacts Proofs.V1Text Proofs.V1Final Proofs.V1Props Proofs.AutoProps Proofs.Extra.
+  Proofs.BytesFacts Proofs.V1Text Proofs.V1Final Proofs.V1Props Proofs.AutoProps Proofs.Extra Proofs.Consume.
+From Coq Require Import List ZArith.
+Import ListNotations.
+Local Open Scope N_scope.
 
 Theorem C04_v1 : forall x hd t, p1 x = Ok hd ->
   p1 (x ++ t) = Ok hd /\ p1 (text hd) = Ok hd /\ text hd = takeN (lenN (text hd)) x
@@ -21,7 +24,33 @@ Proof. exact p2_trailer_independent. Qed.
 Theorem C04_auto : forall x r t, wf_bytes (x ++ t) = true -> pa x = r -> is_ok_a r = true -> pa (x ++ t) = r.
 Proof. exact pa_trailer_independent. Qed.
 
+(* Histories (Proofs/Consume.v): "the number of bytes a caller must remove is exactly the length of the
+   reported header", iterated.  drain is the receive loop -- parse with the auto-detecting parser, on
+   success cut frame_bytes (the header's own bytes: the v1 line through its CRLF, 16 + length for v2)
+   off the front, repeat.  What the parser accepts is a self-parsing frame and a prefix of the input: *)
+Theorem C04_accepts_frame : forall x fr, wf_bytes x = true -> frame_of (pa x) = Some fr ->
+  self_parsing fr /\ x = frame_bytes fr ++ dropN (lenN (frame_bytes fr)) x.
+Proof. exact accepted_is_self_parsing. Qed.
+
+(* and every back-to-back sequence of such frames, v1 and v2 mixed, of any number, followed by anything
+   that is not (yet) a header, is read one by one, in order, leaving exactly what follows the last *)
+Theorem C04_pipeline : forall fs rest k,
+  Forall self_parsing fs -> wf_bytes (concat (map frame_bytes fs) ++ rest) = true -> frame_of (pa rest) = None ->
+  drain (S (length fs) + k) (concat (map frame_bytes fs) ++ rest) = (fs, rest).
+Proof. exact drain_sequence_fuel. Qed.
+
+Example C04_pipeline_example :
+  let v1 := [80;82;79;88;89;32;85;78;75;78;79;87;78;13;10] in
+  let v2 := SIG ++ [33; 17; 0; 12; 1;2;3;4; 5;6;7;8; 0;80; 1;187] in
+  match drain 5 (v1 ++ v2 ++ v1 ++ [71; 69; 84]) with
+  | ([F1 a; F2 b; F1 c], rest) => text a = v1 /\ hbytes b = v2 /\ text c = v1 /\ rest = [71; 69; 84]
+  | _ => False
+  end.
+Proof. vm_compute. repeat split. Qed.
+
 Print Assumptions C04_v1.
 Print Assumptions C04_v1s.
 Print Assumptions C04_v2.
 Print Assumptions C04_auto.
+Print Assumptions C04_accepts_frame.
+Print Assumptions C04_pipeline.
